@@ -23,6 +23,18 @@ CLAIMED = {
          'Machine-checked proof (Lean 4) that the section text and PNG pixel encodings of the model equal a reference description written from the PICO-8 formats (pixel rows in screen order, plain hex rows, 16-bit note words with documented bit fields, music flag byte, A2R2G2B2 channel split, memory layout) for ALL region contents, and that reading inverts writing. The model is tied to the code by differential execution (all 65,536 note words, every byte value at every gfx column, all music flag patterns, random regions, malformed lines); the implementation\'s text is also compared directly with the Lean Spec rendering and with PICO-8-written fixtures.',
          'Trusted: Lean kernel; that Spec/Formats.lean is PICO-8\'s format (anchored by the fixtures); pypng/zlib container; correspondence is testing.',
          '5/C16'),
+ 'C03': ('Lean 4 proof: file-level round trip readP8(writeP8 c) = normCart c by induction over sections/lines, using C15\'s bijection and per-section codec round trips; correspondence with compiled model',
+         'Machine-checked proof (Lean 4) that for EVERY well-formed cart (all region bytes, any label, any version, any code whose lines are not section headers) reading the written .p8 text yields the same cart with the final newline supplied and the one unrepresentable music bit cleared, that re-writing is byte-identical, and that the normalised cart is again well formed. The file model (header, section scanner with dict semantics, per-section codecs, Unicode layer) is tied to p8.py by differential execution: real carts written by the implementation must equal the model\'s bytes, and files read by both (including malformed files) must give the same cart; the Lua layer is opaque here (C06/C07).',
+         'Trusted: Lean kernel; UTF-8 codec; gen_tables.py; the Lua layer (echo writer/lexer) outside this model; correspondence is testing.',
+         '5/C03'),
+ 'C04': ('Lean 4 proof: code-area encode/decode (via C05), 2-bit steganography round trip and upper-six-bit preservation by induction over rows/pixels, refusal when the code does not fit; correspondence with compiled model; independent PNG decoder as oracle',
+         'Machine-checked proof (Lean 4): for EVERY cart with well-sized regions and every RGBA label image, if the code fits the written pixel rows read back to identical regions, version and code (CR->space, newline for raw storage) whether stored compressed or raw; a cart whose code does not fit is refused; the written image equals the label in the upper six bits of every channel. Explicit guards (version 0 with compressed code, raw code containing NUL, the 3-byte code \':c:\', text ending in the compatibility suffix) are recorded known findings. The PNG container is outside the model: the written file is decoded by an independent decoder and by the real reader in the harness.',
+         'Trusted: Lean kernel; pypng/zlib container (cross-checked by harness/ref/png.py); hand model of p8png.py; correspondence is testing. Partial: PNG file bytes <-> pixel rows not modelled.',
+         '5/C04'),
+ 'C17': ('Lean 4 proof: each setter characterised against the plain pixel/cell/flag/note semantics (get-after-set, frame condition, size preservation, no error in contract) by induction over rows/columns and per-byte kernel-evaluated tables; stateful correspondence with compiled model',
+         'Machine-checked proof (Lean 4) for ALL in-contract arguments and ALL memory contents: set_sprite paints exactly the non-transparent sprite pixels that fall on the sheet (clipped, no wrap, no error) and nothing else; set_cell/set_rect_tiles write exactly the addressed cells of the 128x64 map incl. the half aliased into sprite memory; flag, note, property and music setters read back and leave every other byte unchanged; getters return the documented grid values. Histories are covered by composing these complete per-operation characterisations; the harness runs random operation histories on the implementation against the stateful Lean model and an independent plain-grid oracle, comparing the whole memory after every operation.',
+         'Trusted: Lean kernel; hand model of the accessors; correspondence is testing. get_rect_pixels is covered by the harness only.',
+         '5/C17'),
 }
 NOT_YET = 'check not built yet in this round (framework under construction); will be claimed when its Lean model, theorems and correspondence run'
 
